@@ -472,6 +472,7 @@ def TypedVal : Leaf → Val → Prop
   | .arr items _ _ _, .arr xs => ∀ x ∈ xs, tagOK items.t x = true
   | .obj sprops _ addl, .obj kvs => TypedKVs sprops addl kvs
   | .deep sprops _, .dobj kvs => ∀ kv ∈ kvs, ∃ ds, (kv.1, ds) ∈ sprops ∧ TypedDV ds kv.2
+  | .untyped _, .prim v => ∀ i, v ≠ .int32 i
   | _, _ => True
 
 theorem visitLeaf_eq (l : Leaf) (v : Val) (hwf : leafWF l) (hg : leafEnumGoType l = false) (ht : TypedVal l v) :
@@ -515,6 +516,13 @@ theorem visitLeaf_eq (l : Leaf) (v : Val) (hwf : leafWF l) (hg : leafEnumGoType 
         | some a =>
           simp only at hk hg ⊢
           exact visitPS_eq_of_tag a kv.2 hg.2 hk
+  | untyped en =>
+    cases v <;> try rfl
+    next pv =>
+      have : ∀ e, enumHitImpl e pv = enumHitSpec e pv := by
+        intro e
+        cases e <;> cases pv <;> simp_all [enumHitImpl, enumHitSpec, TypedVal]
+      simp [visitLeaf, this]
   | deep sprops rq =>
     cases v <;> try rfl
     next kvs =>
@@ -812,6 +820,52 @@ theorem decodeLeaf_typed (fl : Flavour) (hp : fl.prim = parsePrim) (c : Cell) (n
       · exact queryObj_typed _ _ name st ex r sprops rq addl hnd
     · exact headerObj_typed _ _ _ _ _ _ hnd
     · exact cookieObj_typed _ _ _ _ _ _ _ hnd
+  | untyped en =>
+    have hstr : ∀ (f : Bool) (s : Str), TypedVal (.untyped en) (primOut f (parsePrim .string s)).val := by
+      intro f s
+      by_cases hs : s = []
+      · simp [parsePrim, hs, primOut, TypedVal]
+      · simp [parsePrim, hs, primOut, TypedVal]
+    simp only [decodeLeaf, hp]
+    split
+    · cases loc <;> simp only
+      · unfold pathPrim
+        cases pathPrimPrefix name st with
+        | none => exact typed_nil _
+        | some pre =>
+          simp only
+          cases pathRaw r with
+          | none => exact typed_nil _
+          | some raw =>
+            simp only
+            cases cutPrefix raw pre with
+            | none => exact typed_nil _
+            | some src => exact hstr _ _
+      · unfold queryPrim
+        by_cases h : st ≠ .form
+        · rw [if_pos h]; exact typed_nil _
+        · rw [if_neg h]
+          cases qLookup name r.query with
+          | none => exact typed_nil _
+          | some vs =>
+            cases vs with
+            | nil => exact typed_nil _
+            | cons v rest => exact hstr _ _
+      · unfold headerPrim
+        by_cases h : st ≠ .simple
+        · rw [if_pos h]; exact typed_nil _
+        · rw [if_neg h]
+          cases headerRaw r with
+          | none => exact typed_nil _
+          | some raw => exact hstr _ _
+      · unfold cookiePrim
+        by_cases h : st ≠ .form
+        · rw [if_pos h]; exact typed_nil _
+        · rw [if_neg h]
+          cases r.cookie with
+          | none => exact typed_nil _
+          | some raw => exact hstr _ _
+    · exact typed_nil _
   | deep sprops rq =>
     have hobj : ∀ (l' : Leaf) (v : Val), TypedVal l' v → (∀ kvs, v ≠ .dobj kvs) → TypedVal (.deep sprops rq) v :=
       fun _ v _ h => typed_deep_other sprops rq v h
@@ -842,6 +896,7 @@ def leafEnumFree : Leaf → Bool
   | .arr it _ _ en => psEnumFree it && en.isEmpty
   | .obj sp _ ad => sp.all (fun x => psEnumFree x.2) && (match ad with | some a => psEnumFree a | none => true)
   | .deep sp _ => sp.all (fun x => dsEnumFree x.2)
+  | .untyped en => en.isEmpty
 
 theorem visitPS_enumFree (h1 h2 : EV → PV → Bool) (ps : PS) (v : PV) (hf : psEnumFree ps = true) :
     visitPS h1 ps v = visitPS h2 ps v := by
@@ -909,6 +964,9 @@ theorem visitLeaf_enumFree (h1 a1 h2 a2 : EV → PV → Bool) (l : Leaf) (v : Va
         cases addl with
         | none => rfl
         | some a => exact visitPS_enumFree h1 h2 a kv.2 hf.2
+  | untyped en =>
+    simp only [leafEnumFree] at hf
+    cases v <;> simp [visitLeaf, hf]
   | deep sprops rq =>
     cases v <;> try rfl
     next kvs =>
